@@ -88,6 +88,7 @@ struct Cfg {
     deep: bool,
     nl: usize,
     hmax: u32,
+    hmin: u32,
 }
 
 impl Cfg {
@@ -101,6 +102,7 @@ impl Cfg {
             deep: v["deep"] == true,
             nl: v["nl"].as_u64().unwrap() as usize,
             hmax: v["hmax"].as_u64().unwrap() as u32,
+            hmin: v["hmin"].as_u64().unwrap_or(0) as u32,
         }
     }
 }
@@ -260,7 +262,7 @@ impl World {
 
     fn content_txs(&self, c: &str) -> Vec<Transaction> {
         match c {
-            "e" => vec![],
+            "e" | "b" => vec![],
             "f1" => vec![self.chans[0].funding_tx.clone()],
             "d1" => vec![self.chans[0].double_spend.clone()],
             "f2" => vec![self.chans[1].funding_tx.clone()],
@@ -403,7 +405,8 @@ impl World {
         } else {
             "bad"
         };
-        json!({"id": info.as_ref().map(|i| i.id.clone()).unwrap_or(format!("?{}", hash)),
+        let parent = info.as_ref().and_then(|i| self.lookup(&i.parent)).map(|p| p.id.clone()).unwrap_or("?".into());
+        json!({"id": info.as_ref().map(|i| i.id.clone()).unwrap_or(format!("?{}", hash)), "p": parent,
                "c": info.as_ref().map(|i| i.c.clone()).unwrap_or("?".into()),
                "lvl": self.lvl_of(h.0.bits), "fh": fh})
     }
@@ -411,7 +414,10 @@ impl World {
     /// projection onto the variables of Tracker.tla
     fn project(&self, t: &Tracker) -> Value {
         let mut ls = vec![];
-        for (_, (l, slot)) in t.listeners.iter() {
+        // listeners in channel order (the tracker keeps them ordered by funding outpoint)
+        let mut entries: Vec<_> = t.listeners.iter().collect();
+        entries.sort_by_key(|(k, _)| self.chans.iter().position(|c| c.outpoint == **k).unwrap_or(99));
+        for (_, (l, slot)) in entries.into_iter() {
             let st = serde_json::to_value(&*l.get_state()).unwrap();
             let opt = |v: &Value| v.as_i64().unwrap_or(-1);
             let other = ["mutual_closing_height", "unilateral_closing_height", "closing_outpoints", "closing_swept_height", "our_output_swept_height"]
@@ -701,8 +707,7 @@ fn explore() {
                 };
                 let t0 = w.restore(&pre);
                 let apre = w.project(&t0);
-                let lo = w.cfg.h0 - (w.cfg.prewin as u32).min(w.cfg.h0);
-                let expand = pre.height < w.cfg.hmax && pre.height >= lo;
+                let expand = pre.height < w.cfg.hmax && pre.height >= w.cfg.hmin;
                 let mut edges: Vec<Value> = vec![];
                 let mut probes: Vec<Value> = vec![];
                 if expand {
@@ -808,7 +813,9 @@ fn run_seqs() {
 }
 
 fn main() {
-    quiet_panics();
+    if std::env::var("VERIF_SHOW_PANICS").is_err() {
+        quiet_panics();
+    }
     let cmd = std::env::args().nth(1).unwrap_or_default();
     match cmd.as_str() {
         "explore" => explore(),
